@@ -143,3 +143,61 @@ def u_user_path(s: str) -> bool:
     ok = out.root == Root.builddir and (out.suffix == D.suffix or
                                         out.suffix.startswith(D.suffix + '/'))
     return R(ok and _decode(out, D) == p.suffix)
+
+
+# --- duplicate outputs are a configuration error ---------------------------------------------
+from typing import List
+from bfg9000.backends.make.syntax import Makefile
+from bfg9000.backends.ninja.syntax import NinjaFile
+
+TNAMES = ['a', 'd/a b', 'c$x']
+
+
+def _targets(ixs, as_path):
+    out = []
+    for k, i in enumerate(ixs):
+        n = TNAMES[i]
+        out.append(_mkpath(n) if as_path[k % len(as_path)] else n)
+    return out
+
+
+def _dup_expected(t1, t2):
+    seen = set(t1)
+    for i in t2:
+        if i in seen:
+            return True
+        seen.add(i)
+    return False
+
+
+def r_dup_make(t1: List[int], t2: List[int], p1: bool, p2: bool) -> bool:
+    """Makefile.rule: a second rule naming any target of an earlier (multi-target) rule, whether
+    given as a string or as a Path, raises; disjoint rules are accepted
+    pre: 1 <= len(t1) <= 3 and 1 <= len(t2) <= 2 and len(set(t1)) == len(t1)
+    pre: all(0 <= i < 3 for i in t1) and all(0 <= i < 3 for i in t2)
+    post: _
+    """
+    mk = Makefile('build.bfg')
+    mk.rule(_targets(t1, [p1, p2]))
+    try:
+        mk.rule(_targets(t2, [p2, p1]))
+        raised = False
+    except ValueError:
+        raised = True
+    return R(raised == _dup_expected(t1, t2))
+
+
+def r_dup_ninja(t1: List[int], t2: List[int], p1: bool, p2: bool) -> bool:
+    """NinjaFile.build: same law for outputs
+    pre: 1 <= len(t1) <= 3 and 1 <= len(t2) <= 2 and len(set(t1)) == len(t1)
+    pre: all(0 <= i < 3 for i in t1) and all(0 <= i < 3 for i in t2)
+    post: _
+    """
+    nf = NinjaFile('build.bfg')
+    nf.build(_targets(t1, [p1, p2]), 'phony')
+    try:
+        nf.build(_targets(t2, [p2, p1]), 'phony')
+        raised = False
+    except ValueError:
+        raised = True
+    return R(raised == _dup_expected(t1, t2))
